@@ -314,8 +314,10 @@ def _ipv6_eval(prog, f, declared):
     agrees (accepting = truthy result; rejecting = falsy result or one of the declared exceptions), else the difference; None if
     outside the fragment."""
     from ..tokeval import Ev, Undecided, PyRaise
-    accept = ["::", "::1", "1::", "2001:db8::8a2e:370:7334", "2001:0db8:85a3:0000:0000:8a2e:0370:7334", "::ffff:192.0.2.1", "fe80::1", "1:2:3:4:5:6:7:8"]
-    reject = ["fe80::1%eth0", "fe80::1%1", "::1%", "2001:db8::/32", "1.2.3.4", "12345::", ":::", "", "::g", "1:2:3:4:5:6:7:8:9", " ::1"]
+    accept = ["::", "::1", "1::", "2001:db8::8a2e:370:7334", "2001:0db8:85a3:0000:0000:8a2e:0370:7334", "::ffff:192.0.2.1", "fe80::1", "1:2:3:4:5:6:7:8",
+              "::2:3:4:5:6:7:8", "1:2:3:4:5:6:7::", "1::8", "1:2:3:4:5:6:1.2.3.4", "::1.2.3.4", "FE80::1", "::FFFF:192.168.0.1", "a:B:c:D:e:F:0:1", "1:2:3:4::6:7:8"]
+    reject = ["fe80::1%eth0", "fe80::1%1", "::1%", "2001:db8::/32", "1.2.3.4", "12345::", ":::", "", "::g", "1:2:3:4:5:6:7:8:9", " ::1",
+              "1:2:3:4:5:6:7:8::", "::1\n", "1:2:3:4:5:6:7", "1:2:3:4:5:6:7:", "::1 ", "1::2::3", "::1.2.3", "::256.1.1.1", "[::1]"]
     try:
         for sv, want in [(x, True) for x in accept] + [(x, False) for x in reject]:
             try:
@@ -327,6 +329,39 @@ def _ipv6_eval(prog, f, declared):
                 got = False
             if got != want:
                 return "is_ipv6(%r) %s it; the format %s it (no zone id, no prefix length)" % (sv, "accepts" if got else "rejects", "accepts" if want else "rejects")
+    except Undecided:
+        return None
+    return ""
+
+
+FORMAT_TABLES = {
+    # format: (strings of the grammar, near-misses outside it)
+    "ipv4": (["0.0.0.0", "255.255.255.255", "1.2.3.4", "10.0.0.1", "192.168.1.100", "9.99.199.249"],
+             ["256.0.0.1", "1.2.3", "1.2.3.4.5", "01.2.3.4", "1.2.3.04", "1.2.3.4\n", "\n1.2.3.4", " 1.2.3.4", "1.2.3.4 ", "1..3.4", "1.2.3.-4", "\u0661.2.3.4", "1.2.3.4/24",
+              "0x1.2.3.4", "1.2.3.", "", "1.2.3.4\r", "1.2.3.4\x00", "1.2.3.256", "1.2.3.4.", "1,2,3,4", "1.2.3.4\n\n"]),
+    "date": (["2020-02-29", "1999-12-31", "0001-01-01", "9999-12-31", "2000-02-29"],
+             ["2020-02-30", "2019-02-29", "20200101", "2020-W01-1", "2020-1-01", "2020-01-01\n", "2020-01-01T00:00:00", " 2020-01-01", "\uff12020-01-01", "2020-13-01", "",
+              "2020-00-10", "2020-01-32", "1900-02-29", "2020-01-01 ", "2020/01/01", "+2020-01-01", "2020-001", "\u0662\u0660\u0662\u0660-01-01"]),
+    "email": (["a@b", "@", "a@b@c", " @ ", "x@\n"], ["", "ab", "a.b", "\uff20"]),
+}
+
+
+def _format_table_eval(prog, f, fmt, declared):
+    """a built-in checker evaluated by sa/tokeval.py (the standard library's own ipaddress / datetime do the parsing) on the format's
+    table of accepted strings and near-misses: '' | difference | None"""
+    from ..tokeval import Ev, Undecided, PyRaise
+    accept, reject = FORMAT_TABLES[fmt]
+    try:
+        for sv, want in [(x, True) for x in accept] + [(x, False) for x in reject]:
+            try:
+                res = Ev(prog, fuel=6000).call_func(f, [sv], {})
+                got = bool(res)
+            except PyRaise as pr:
+                if not covered(pr.name, declared) and pr.name not in ("AddressValueError",):
+                    return "%s(%r) raises %s, which its `raises` does not list" % (f.name, sv, pr.name)
+                got = False
+            if got != want:
+                return "%s(%r) %s it; the %s grammar %s it" % (f.name, sv, "accepts" if got else "rejects", fmt, "contains" if want else "does not contain")
     except Undecided:
         return None
     return ""
@@ -530,6 +565,18 @@ def run(ctx):
             else:
                 r3.fail("%s|superset-delegate|%s" % (f.qual, tgt), site(f, c),
                         "%s hands the string straight to %s, which %s" % (f.name, tgt, SUPERSET_DELEGATES[tgt]))
+        # R13.8: tables of near-misses for the formats with a crisp grammar
+        for fmt in sorted(set(names) & set(FORMAT_TABLES)) + (["ipv4"] if "ip-address" in names and "ipv4" not in names else []):
+            r8 = next((x for x in ctx.rules if x.id == "R13.8"), None) or ctx.rule(
+                "R13.8", "on a table of the grammar's strings and their near-misses (one character added, dropped or replaced, trailing newline, non-ASCII digits) "
+                         "each crisp built-in format accepts exactly the grammar", floor=1)
+            semt = _format_table_eval(prog, f, fmt, declared)
+            if semt is None:
+                r8.ok(site(f) + " [%s]" % fmt, "NOT DECIDED: outside the evaluated fragment")
+            elif semt == "":
+                r8.ok(site(f) + " [%s]" % fmt, "%d strings accepted, %d near-misses rejected" % (len(FORMAT_TABLES[fmt][0]), len(FORMAT_TABLES[fmt][1])))
+            else:
+                r8.fail("%s|table|%s" % (f.qual, fmt), site(f), semt)
         # R13.4
         if "ipv6" in names:
             sem = _ipv6_eval(prog, f, declared)
